@@ -32,25 +32,25 @@ end
 
 mutual
 theorem hyps3Node_of_hyps (H : HypEnv) (frag : Nat) (hfr : frag ≤ 2) :
-    ∀ (node : QNode) (miss : Bool) (pre : Name), hypsNode H frag pre node = true →
-    hyps3Node H miss pre node = true
-  | .mk ct fields, miss, pre, h => by
+    ∀ (node : QNode) (pre : Name), hypsNode H frag pre node = true →
+    hyps3Node H pre node = true
+  | .mk ct fields, pre, h => by
     simp only [hypsNode, hyps3Node] at h ⊢
     cases hc : coerce H.S pre ct with
     | error e => rfl
     | ok post =>
       simp only [hc, Bool.and_eq_true] at h ⊢
-      exact ⟨h.1, hyps3Fields_of_hyps H frag hfr fields miss post h.2⟩
+      exact ⟨h.1, hyps3Fields_of_hyps H frag hfr fields post h.2⟩
 theorem hyps3Fields_of_hyps (H : HypEnv) (frag : Nat) (hfr : frag ≤ 2) :
-    ∀ (fields : List QField) (miss : Bool) (ty : Name), hypsFields H frag ty fields = true →
-    hyps3Fields H miss ty fields = true
-  | [], _, _, _ => rfl
-  | .prop _ _ :: rest, miss, ty, h => by
+    ∀ (fields : List QField) (ty : Name), hypsFields H frag ty fields = true →
+    hyps3Fields H ty fields = true
+  | [], _, _ => rfl
+  | .prop _ _ :: rest, ty, h => by
     simp only [hypsFields, hyps3Fields] at h ⊢
-    exact hyps3Fields_of_hyps H frag hfr rest miss ty h
-  | .edge n params kind child :: rest, miss, ty, h => by
+    exact hyps3Fields_of_hyps H frag hfr rest ty h
+  | .edge n params kind child :: rest, ty, h => by
     simp only [hypsFields, hyps3Fields, Bool.and_eq_true] at h ⊢
-    refine ⟨?_, hyps3Fields_of_hyps H frag hfr rest miss ty h.2⟩
+    refine ⟨?_, hyps3Fields_of_hyps H frag hfr rest ty h.2⟩
     cases he : H.S.edge? ty n with
     | none => rfl
     | some ed =>
@@ -63,9 +63,9 @@ theorem hyps3Fields_of_hyps (H : HypEnv) (frag : Nat) (hfr : frag ≤ 2) :
         refine ⟨⟨hpa, hro⟩, ?_⟩
         cases kind with
         | fold fds => simp [kindIn] at hk; omega
-        | plain => exact hyps3Node_of_hyps H frag hfr child miss ed.target hch
-        | optional => exact hyps3Node_of_hyps H frag hfr child true ed.target hch
-        | recurse d => exact hyps3Node_of_hyps H frag hfr child miss ed.target hch
+        | plain => exact hyps3Node_of_hyps H frag hfr child ed.target hch
+        | optional => exact hyps3Node_of_hyps H frag hfr child ed.target hch
+        | recurse d => exact hyps3Node_of_hyps H frag hfr child ed.target hch
 end
 
 theorem hyps3B_of_hypsB (H : HypEnv) (frag : Nat) (hfr : frag ≤ 2) (q : Query)
@@ -78,16 +78,7 @@ theorem hyps3B_of_hypsB (H : HypEnv) (frag : Nat) (hfr : frag ≤ 2) (q : Query)
     | error e => simp [hp]
     | ok rootParams =>
       simp only [hr, hp, Bool.and_eq_true] at h ⊢
-      exact ⟨h.1, hyps3Node_of_hyps H frag hfr q.root false root.target h.2⟩
-
-/-- A fold-free tree compiles to an IR without folds, hence without imports. -/
-theorem noImports_of_noFold {S : SchemaView} {q : Query} {ir : IRQuery} (h : toIR S q = .ok ir)
-    (hnf : noFold q.root = true) : importsOKC [] ir.rootComponent = true := by
-  obtain ⟨root, rootParams, acc, st1, comp, evs, st2, vars, _, _, hfill, hfin, _, _, _, rfl⟩ :=
-    toIR_inv h
-  obtain ⟨vs, ev, _, rfl, _⟩ := finishComponent_inv hfin
-  obtain ⟨_, hfolds⟩ := (keys_fill S).1 _ _ _ _ _ _ _ hfill hnf
-  simp [importsOKC, hfolds, importsOKF]
+      exact ⟨h.1, hyps3Node_of_hyps H frag hfr q.root root.target h.2⟩
 
 /-- **Fragments F0–F2** as instances of the theorem with folds; the fold-count limits are
 irrelevant (any `lim`). -/
@@ -98,6 +89,6 @@ theorem interp_eq_spec_core (S : SchemaView) (q : Query) (ir : IRQuery) (D : Dat
       (Spec.rows ⟨D, args, edges⟩ q).toOption := by
   have hnf := noFold_of_frag q.root (by omega)
   exact interp_eq_spec_F3a_core S q ir D args edges lim (Or.inr hnf) h
-    ⟨hyps3B_of_hypsB _ frag hfr q hh, noImports_of_noFold h hnf⟩
+    (hyps3B_of_hypsB _ frag hfr q hh)
 
 end TF.InterpSpec
